@@ -314,6 +314,14 @@ func nullFDsUnder(dir string) int {
 	return n
 }
 
+func readFileTrim(p string) (string, error) {
+	b, err := os.ReadFile(p)
+	if err != nil {
+		return "", err
+	}
+	return strings.Trim(string(b), "\x00 \n"), nil
+}
+
 func sparsePunch(f *os.File, off, n int64) error {
 	const keepSize, punchHole = 1, 2
 	return syscall.Fallocate(int(f.Fd()), keepSize|punchHole, off, n)
